@@ -18,10 +18,10 @@ SPEC = {
         "index groups, tiering and the physical deletion of shard files (engine.DeleteShard of a loaded shard, OBS paths) are outside this library-level check",
     ],
     "campaigns": [
-        {"name": "service", "run": "^TestRetentionService$", "quick": B(600, 6), "thorough": B(30000, 8, 3000)},
-        {"name": "logkeeper_selection", "run": "^TestLogkeeperSelection$", "quick": B(3000, 1), "thorough": B(100000, 2, 3000)},
-        {"name": "open_shard", "run": "^TestOpenShardIsExpired$", "quick": B(500, 2), "thorough": B(20000, 3, 3000)},
-        {"name": "expired_groups_pure", "run": "^TestExpiredShardGroupsPure$", "quick": B(20000, 1), "thorough": B(1000000, 2, 3000)},
+        {"name": "service", "run": "^TestRetentionService$", "quick": B(600, 6), "thorough": B(60000, 8, 5400)},
+        {"name": "logkeeper_selection", "run": "^TestLogkeeperSelection$", "quick": B(3000, 1), "thorough": B(300000, 2, 5400)},
+        {"name": "open_shard", "run": "^TestOpenShardIsExpired$", "quick": B(500, 2), "thorough": B(40000, 3, 5400)},
+        {"name": "expired_groups_pure", "run": "^TestExpiredShardGroupsPure$", "quick": B(20000, 1), "thorough": B(2000000, 2, 5400)},
     ],
 }
 
